@@ -4,12 +4,14 @@ import SycVerif.Driver.IsDynRead
 import SycVerif.Driver.Reactive
 import SycVerif.Driver.ListMapDrv
 import SycVerif.Driver.SsrDrv
+import SycVerif.Driver.AsyncDrv
 /-! Native driver: one request per line on stdin (`<engine> <op> <args…>`), one reply per line. -/
 open SycVerif.Driver
 
 def dispatch (line : String) : String :=
   let line := line.trimAscii.toString
   if line.startsWith "isdyn classify " then IsDynRead.handle (line.drop 15).toString else
+  if line.startsWith "async " then AsyncDrv.handle (line.drop 6).toString else
   if line.startsWith "ssr " then SsrDrv.handle ("(" ++ (line.drop 4).toString ++ ")") else
   if line.startsWith "reactive run " then ReactiveDrv.handle (line.drop 13).toString else
   match line.splitOn " " with
